@@ -28,10 +28,13 @@ void wl_env_swarm(void)
     }
     if (plan_n(2) == 0)
         env_int("ABT_KEY_TABLE_SIZE", 1 << plan_n(7));
-    if (plan_n(2) == 0)
-        env_int("ABT_MEM_MAX_NUM_STACKS", 2 + 2 * (long)plan_n(8));
-    if (plan_n(2) == 0)
-        env_int("ABT_MEM_MAX_NUM_DESCS", 2 + 2 * (long)plan_n(8));
+    /* small buckets most of the time: bucket hand-over between local and global memory pools
+     * then happens after a handful of operations (the default 512-stack buckets would also
+     * make ABT_init touch megabytes in every run) */
+    if (plan_n(8) != 0)
+        env_int("ABT_MEM_MAX_NUM_STACKS", 2 + 2 * (long)plan_n(16));
+    if (plan_n(8) != 0)
+        env_int("ABT_MEM_MAX_NUM_DESCS", 2 + 2 * (long)plan_n(16));
     if (plan_n(4) == 0) {
         static const char *lp[] = { "malloc", "mmap_rp", "mmap_hp_rp", "mmap_hp_thp", "thp" };
         const char *v = lp[plan_n(5)];
